@@ -107,17 +107,43 @@ META = {
             "VARARG/Argument clause; satisfiable: failingExt_noPanic), SizeBounded, and EnvSlots of the state examined "
             "(EnvSlotsAlong for runs): the two slot-index expects of LexicalEnvironment::get/put in CLOSURE/ENTER — the "
             "current environment has a slot for every IofEnvironment index of the lambda being closed over, a closure's "
-            "environment has one per environment-map entry. NOT proved as an invariant: it ties ep / closure environments to "
-            "code objects through the frame chain (saved EnvironmentPointer of every frame and continuation), which neither "
-            "WF-stack nor the heap invariants record; carried by the correspondence: the stream safe-side-conditions (C03) "
+            "environment has one per environment-map entry. WAVE 10: EnvSlots IS NOW AN INVARIANT and the *_closed forms "
+            "(step_/run_/eval_/history_never_panics_machine_closed) state T06.6 WITHOUT EnvSlots/EnvSlotsAlong: "
+            "EnvInv s = TInv s /\\ FInv s (Lemmas/EnvTaint*.lean, EnvFit*.lean, EnvInvStep/Main.lean, ~5600 lines; executable "
+            "form Vm/EnvInvCheck.lean stateEnvB, proved sound: stateEnvB_sound). FInv (fit): every closure cell's "
+            "environment has a slot per entry of its lambda's map; every adjacent EnvironmentPointer/InstructionPointer "
+            "pair of the live stack and of every continuation copy fits, so do the (ep, ip.0) a continuation saved and the "
+            "current (ep, ip.0) outside a procedure prologue (verifier state pre; there acc still holds the callee whose "
+            "code runs, or Undefined after the error reset); at every MOVIMM <Ptr p> %acc; CLOSURE site of a code object the "
+            "IofEnvironment indices of the lambda in p are below the length of that code object's own map; no PUSHIMM "
+            "immediate is an InstructionPointer. TInv (no value leads to a capturing lambda, i.e. one with a non-empty "
+            "environment map) is a SECOND invariant the goal turned out to need — a finding about the boundary of the "
+            "bytecode verifier, not about marwood: the verifier does not know what acc holds at CLOSURE or at a bare-lambda "
+            "CALL, so VERIFIED bytecode may store the pointer MOVIMM loaded in a global and close over it (or call it bare) "
+            "in a foreign environment, where model and run_one alike index out of the environment; compiled code never "
+            "does: a pointer to a capturing lambda occurs only as the immediate of MOVIMM ... %acc; CLOSURE and, between "
+            "the two instructions, in acc (same whole-state traversal as PInv with capAt for entryAt: stack, globals, "
+            "environment slots, vectors, pairs, continuation copies, immediates, symbol table). Preservation: envInv_step "
+            "(all 16 opcodes of step (concreteOps ext): apply/call-cc/eval re-dispatch, continuation invocation, both TCALL "
+            "variants, VARARG; the verifier's typing says which successor offsets are prologue offsets), envInv_gc (the "
+            "collector moves nothing: every Fit claim is conditional on both cells being there), envInv_onDone, "
+            "envInv_onError, envInv_prepare; envSlots_of_envInv : VmOkNP s -> EnvInv s -> EnvSlots s. NEW LAWS of the "
+            "parameters of the model (visible in the statements, satisfiable: failingExt_envInv): ExtEnvInv ext = ExtTaint "
+            "(builtins/VPUSH create no capturing lambda and keep the taint clauses; eval's compiler keeps them for "
+            "allocated values and returns a non-capturing lambda) + ExtFit (between two HG heaps they keep HF, do not "
+            "change the length of an allocated environment or an allocated lambda, and a closure a builtin returns inline "
+            "fits); CompEnvInv for the compiler inside prepare_eval (the entry lambda has an empty map). REMAINING "
+            "HYPOTHESES of the closed forms: the Ext* laws, VmOkP/NPInv/EnvInv of the INITIAL state (of each job's prepared "
+            "state in history_never_panics_machine_closed: HistGoodE), SizeBounded. Non-vacuity: Demo.sHalt_envInv, "
+            "LDemo.sDemo_envInv (kernel-evaluated stateEnvB), rejected witnesses in Lemmas/EnvInvMain.lean. Carried by the "
+            "correspondence: the stream safe-side-conditions (C03) "
             "evaluates np-lambda (HeapNP), np-cont-fits (ContFits) and np-env-slots (EnvSlots) on every real state (700 in "
             "the quick tier: 19 CLOSURE, 37 ENTER, 200+ CALL/TCALL states incl. continuation invocations; 3168 in the "
-            "thorough tier: 90 CLOSURE, 173 ENTER; all ok), and "
-            "ALSO the whole-state clauses that would make EnvSlots an invariant (Vm/NoPanicCheck.lean: np-clos-fit — every "
-            "closure cell's environment has a slot per entry of its lambda's map; np-child-env — the IofEnvironment "
-            "indices of every lambda a code object loads with MOVIMM index that code object's own map; np-frame-env — every "
-            "saved EnvironmentPointer/InstructionPointer pair in the live stack and in every continuation copy fits; all ok on "
-            "the same states and on a separate 1584-state thorough shard): evaluated, their preservation is not proved. "
+            "thorough tier: 90 CLOSURE, 173 ENTER; all ok), the three candidate clauses of wave 9 (np-clos-fit, "
+            "np-child-env, np-frame-env) and now every clause of stateEnvB (env-val-cell, env-env-slot, env-vector-elem, "
+            "env-code-imm, env-cont-stack, env-global, env-symtab, env-acc, env-stack, env-clos-fit, env-child-fit, "
+            "env-cont-fit, env-frame-pairs, env-cur-fit; the code clauses are not evaluated on hand-assembled bytecode): all "
+            "ok on the same states and on a separate 1584-state thorough shard. "
             "Model boundary noted there: heap.get_at_index(ep) with ep = usize::MAX (top-level code) is an `err` in "
             "the model (total signatures, ConcreteHeap decision 4), a Rust index panic in the code — reached only if "
             "top-level code closes over an IofEnvironment slot, which EnvSlots' premise envAt ep = some _ does not cover; "
@@ -163,7 +189,10 @@ isListTH_total isListTH_terminates isListTH_never_diverges circ_not_properList
 step_panic_sites step_never_panics concrete_isLambda_code step_panic_sites_concrete
 concrete_vararg_info concrete_makeClosure_np concrete_makeActivation_np contFits_step step_never_panics_machine
 apply_guard_only_on_long_lists longChain_not_endsWithin run_never_panics_machine eval_never_panics_machine
-history_never_panics_machine failingExt_noPanic""".split()]
+history_never_panics_machine failingExt_noPanic
+envSlots_of_envInv envInv_step envInv_gc envInv_onDone envInv_onError envInv_prepare
+step_never_panics_machine_closed run_never_panics_machine_closed eval_never_panics_machine_closed
+histGood_of_histGoodE history_never_panics_machine_closed failingExt_envInv""".split()]
 
 CIRC = {"circ-cdr", "circ-self", "circ-car", "circ-vec", "circ-vl", "circ-lv"}
 REENTRANT = {"cont", "l-cont"}
